@@ -260,13 +260,24 @@ def body():
             n_named, n_edge = len(named), len(edge)
         # (B) real code
         drv = V.build_driver("oracle")
-        bf, tf = sc.path("beh.json"), sc.path("trace.ndjson")
-        json.dump([sanitize(b) for b in behs], open(bf, "w"))
-        args = ["-in", bf, "-out", tf, "-workers", "8"]
+        tf = sc.path("trace.ndjson")
         if os.path.isdir("/dev/shm") and os.access("/dev/shm", os.W_OK):
             dbdir = tempfile.mkdtemp(prefix="verif-%s-db-" % PROP, dir="/dev/shm")   # store files on tmpfs: no fsync cost
-            args += ["-dbdir", dbdir]
-        V.run_driver(drv, args)
+        # the store's constructor leaves one database handle open per store (db.RunMigrations never closes its own), so
+        # a driver process replays a bounded chunk of behaviours; chunks run side by side, traces are concatenated in order
+        chunks = [behs[i:i + 2000] for i in range(0, len(behs), 2000)]
+
+        def replay(k):
+            bf, of = sc.path("beh%d.json" % k), sc.path("trace%d.ndjson" % k)
+            json.dump([sanitize(b) for b in chunks[k]], open(bf, "w"))
+            V.run_driver(drv, ["-in", bf, "-out", of, "-workers", "4"] + (["-dbdir", dbdir] if dbdir else []))
+            return of
+        with ThreadPoolExecutor(max_workers=4) as ex:
+            outs = list(ex.map(replay, range(len(chunks))))
+        with open(tf, "w") as o:
+            for of in outs:
+                with open(of) as i:
+                    shutil.copyfileobj(i, o)
         # (C) judge
         info = V.validate_traces("OracleTrace.tla", "OracleTrace.cfg", tf, sc)
         if not info["consumed_ok"]:
